@@ -87,12 +87,12 @@ CHECKS = {
   "DESIGN.md §5 C19"),
  "C07": ("enum (envx world)",
   "exhaustive enumeration of hostile inbound frame sequences (small-scope fragment sequences, all single field mutations and truncations of valid packets, short noise) against the real stack in the deterministic world, worker-isolated; liveness probes after every sequence",
-  "IPv4 fragments: all sequences of length <=2 (thorough 3) over offset {0,8,16,65528} x length {0,8,16,24} x MF {0,1} x id {1,2}; for each of 15 valid templates (ARP, ICMPv4 echo / unreachable, UDP, TCP SYN/ACK/data/RST to listener, connection and closed port, the IPv6 counterparts incl. NS/NA and packet-too-big) every length/offset/count/flag field set to each boundary value and every truncation length; every byte string of length <=2 and fills of every length 0..80 under each ethertype; each template and each of its field mutations delivered in two views cut at every byte (quick: mutations cut within bytes 20..104) and, for IPv4, as two fragments cut at every 8-byte boundary in both arrival orders; pairs of a 24-letter digest of the above; the same runt/short frames through the repository's fd-based Ethernet endpoint over a socketpair. After every sequence: no panic, no dead worker (a dying worker process is re-run in isolation and reported), no goroutine deadlocked or wedged, and the stack still answers an echo request, still completes a handshake on the listener and still delivers a UDP datagram.",
+  "IPv4 fragments: all sequences of length <=2 (thorough 3) over offset {0,8,16,65528} x length {0,8,16,24} x MF {0,1} x id {1,2}; for each of 15 valid templates (ARP, ICMPv4 echo / unreachable, UDP, TCP SYN/ACK/data/RST to listener, connection and closed port, the IPv6 counterparts incl. NS/NA and packet-too-big) every length/offset/count/flag field set to each boundary value and every truncation length; every byte string of length <=2 and fills of every length 0..80 under each ethertype; each template and each of its field mutations delivered in two views cut at every byte (quick: mutations cut within bytes 20..104) and, for IPv4, as two fragments cut at every 8-byte boundary in both arrival orders; every 3-byte (thorough: 4-byte) TCP option area over a 12-symbol alphabet (known and unknown kinds, length bytes 0/1/2/3/4/10/40/255) on a SYN to the listener and on a data segment of the connection; pairs of a 24-letter digest of the above; the same runt/short frames through the repository's fd-based Ethernet endpoint over a socketpair. After every sequence: no panic, no dead worker (a dying worker process is re-run in isolation and reported), no goroutine deadlocked, wedged or spinning (still runnable after 200000 yields / 30 s), and the stack still answers an echo request, still completes a handshake on the listener and still delivers a UDP datagram.",
   "Inputs are injected at the link layer of one NIC; reassembly timeouts are not advanced inside a sequence. Single-field mutations and pairs, not arbitrary byte strings of packet length.",
   "DESIGN.md §5 C07"),
  "C09": ("seqx+coop",
   "explicit-state search over socket-set histories (open orders, closes, interface toggles) on the real stack with exhaustive injection of the inbound 4-tuple alphabet after every operation, against a most-specific-match reference; stateless model checking (cooperative scheduler, all schedules) of registration/unregistration racing delivery",
-  "Sockets from {UDP bound *:P, A1:P, A2:P, A3:P (NIC 2), A1:P connected to R:Q, *:P connected to R:Q; the same connected through NIC 1 explicitly, A1:P bound on NIC 1, *:P bound on NIC 2; TCP listener *:P, A1:P}: all sets of size <=3 in all open orders, then each single close; toggles promiscuous / subnet; after each operation every packet of dst {A1,A2,A3,foreign,unassigned} x dport {P,P'} x src {R,R'} x sport {Q,Q'} x {UDP, TCP SYN, TCP ACK+data} on each NIC is injected and the receiving socket (or the reset / ICMP-free silence) compared with the most-specific-match reference; each datagram reaches exactly one socket, never a closed one. Concurrent programs (bind/close racing delivery) over all schedules: each datagram reaches at most one socket, one registered at some time during the delivery, the more specific one if it was registered throughout.",
+  "Sockets from {UDP bound *:P, A1:P, A2:P, A3:P (NIC 2), A1:P connected to R:Q, *:P connected to R:Q; the same connected through NIC 1 explicitly, A1:P bound on NIC 1, *:P bound on NIC 2; TCP listener *:P, A1:P}: all sets of size <=3 in all open orders, then each single close; toggles promiscuous / subnet; every connected socket connecting again to the peer it already has; after each operation every packet of dst {A1,A2,A3,foreign,unassigned} x dport {P,P'} x src {R,R'} x sport {Q,Q'} x {UDP, TCP SYN, TCP ACK+data} on each NIC is injected and the receiving socket (or the reset / ICMP-free silence) compared with the most-specific-match reference; each datagram reaches exactly one socket, never a closed one. Concurrent programs (bind/close racing delivery) over all schedules: each datagram reaches at most one socket, one registered at some time during the delivery, the more specific one if it was registered throughout.",
   "Established TCP connections as menu items are outside the alphabet (established connections are covered by C01/C03). The concurrent part uses a single-NIC world (NIC map iteration order is not controlled).",
   "DESIGN.md §5 C09"),
  "C12": ("enum+envx+seqx",
